@@ -99,7 +99,24 @@ Inductive stmt :=
        specification "mut:m" in the [user] table returns for (x :: args); the method's result is dropped.
        Faithful when no alias of x is live: the serialiser admits it for [self] only, and only in functions
        where [self] occurs in no other way than [self.a], [self.m(..)] and [return self] *)
-| SSetCol (x : string) (i : expr) (e : expr).   (* x[:, i] = e, x a 2-D array, e a 1-D array with one element per row *)
+| SSetCol (x : string) (i : expr) (e : expr)    (* x[:, i] = e, x a 2-D array, e a 1-D array with one element per row *)
+| SCallSt (t : string) (x : string) (f : string) (args : list expr)
+    (* t = x.m(args) / t = f(x, args) where the call CHANGES THE STATE of the object x (a file being read,
+       a generator): [f] (given by specification in the [user] table) receives the state of x
+       and the arguments and returns the pair (result, new state); t is bound to the result and x is
+       rebound to the new state.  The serialiser hoists such calls out of the expression they occur
+       in, accepting them only in the position that is evaluated first *)
+| SYield (e : expr)
+    (* yield e: the yielded values are collected, in order, in the hidden variable "$yield"
+       (see [run_gen]) *)
+| STry (body handler : list stmt)
+    (* try: body except E: handler.  PyLite has ONE exception, so the handler catches everything the
+       body raises, and it runs in the environment the try statement STARTED in: the serialiser accepts
+       the form only when that cannot be observed (see harness/translate_pylite.py), and the template
+       states why every exception of the body is of the class E *)
+| SLog (f : string) (args : list expr).
+    (* a call made for its effect on the world (warnings.warn): logged, in order, in the hidden
+       variable "$log" (see [run_gen_log]) *)
 
 Record func := { f_params : list string; f_body : list stmt }.
 
@@ -427,6 +444,32 @@ Definition all_scalar (l : list val) : bool := forallb is_scalar l.
 Definition unB (l : list val) : option (list bool) :=
   map_opt (fun v => match v with VB b => Some b | _ => None end) l.
 
+(** np.isin on ints: is [v] equal to an element of [r] *)
+Definition isin_val (r : list val) (v : val) : option val :=
+  match v with
+  | VZ x => option_map (fun bs => VB (existsb (fun b => b) bs))
+                       (map_opt (fun y => match y with VZ z => Some (x =? z)%Z | _ => None end) r)
+  | _ => None
+  end.
+
+(** a.sum() of a bool array (True counts 1) or an int array *)
+Definition sum_val (l : list val) : option Z :=
+  fold_right (fun v acc => match v, acc with
+                           | VB b, Some a => Some ((if b then 1 else 0) + a)%Z
+                           | VZ z, Some a => Some (z + a)%Z
+                           | _, _ => None end) (Some 0%Z) l.
+
+(** np.argmin: the first position holding the minimum *)
+Fixpoint argmin_q (l : list Q) : nat :=
+  match l with
+  | [] => O
+  | x :: t =>
+      match t with
+      | [] => O
+      | _ => let j := argmin_q t in if Qle_bool x (nth j t 0) then O else S j
+      end
+  end.
+
 (** zip: the tuples of the i-th elements, up to the shortest sequence *)
 Fixpoint heads_tails (ls : list (list val)) : option (list val * list (list val)) :=
   match ls with
@@ -551,6 +594,12 @@ Definition call (f : string) (args : list val) : option (option val) :=   (* Non
     end
   else if is "np.where" then
     match args with
+    | [VA c] =>                       (* np.where(mask): the 1-tuple of the positions of the True entries *)
+        match unB c with
+        | Some bs => Some (Some (VT [VA (map (fun p => VZ (Z.of_nat (fst p)))
+                                           (filter (fun p => snd p) (combine (seq 0 (List.length bs)) bs)))]))
+        | None => None
+        end
     | [VA c; x; y] =>
         let n := List.length c in
         match bc_list n x, bc_list n y with
@@ -590,6 +639,7 @@ Definition call (f : string) (args : list val) : option (option val) :=   (* Non
   else if is "np.arange" then
     match args with
     | [VZ a; VZ b] => Some (Some (VA (map (fun i => VZ (a + Z.of_nat i)) (seq 0 (Z.to_nat (b - a))))))
+    | [VZ n] => Some (Some (VA (map (fun i => VZ (Z.of_nat i)) (seq 0 (Z.to_nat n)))))
     | _ => None
     end
   else if is "isinstance:str" then
@@ -645,10 +695,53 @@ Definition call (f : string) (args : list val) : option (option val) :=   (* Non
     match args with
     | [VL []] | [VT []] => Some None
     | [VL l] | [VT l] => match max_ints l with Some m => Some (Some (VZ m)) | None => None end
+    | [a; b] => match cmp_scalar CGt b a with         (* max(a, b) of two numbers: b if b > a else a *)
+                | Some c => if is_scalar a && is_scalar b then Some (Some (if c then b else a)) else None
+                | None => None end
     | _ => None
     end
   else if is "np.ravel" then            (* a 1-D array is its own raveling *)
     match args with [VA l] => if all_scalar l then Some (Some (VA l)) else None | _ => None end
+  else if is "np.isin" then           (* element-wise membership of an int array in an int / an int array *)
+    match args with
+    | [VA l; VZ i] => option_map (fun r => Some (VA r)) (map_opt (isin_val [VZ i]) l)
+    | [VA l; VA r] => option_map (fun r => Some (VA r)) (map_opt (isin_val r) l)
+    | _ => None
+    end
+  else if is "meth:sum" then          (* sum of a bool array (the number of True) / of an int array *)
+    match args with
+    | [VA l] => option_map (fun z => Some (VZ z)) (sum_val l)
+    | _ => None
+    end
+  else if is "index[:,]" then         (* a[:, k]: column k of a 2-D array *)
+    match args with
+    | [VA rows; VZ k] =>
+        if (k <? 0)%Z then None else
+        match map_opt (fun r => match r with VA c => Some (nth_val c (Z.to_nat k)) | _ => None end) rows with
+        | Some cells => match map_opt (fun c => c) cells with
+                        | Some col => Some (Some (VA col))
+                        | None => Some None end                          (* IndexError *)
+        | None => None
+        end
+    | _ => None
+    end
+  else if is "min" then               (* min(a, b) of two numbers: b if b < a else a *)
+    match args with
+    | [a; b] => match cmp_scalar CLt b a with
+                | Some c => if is_scalar a && is_scalar b then Some (Some (if c then b else a)) else None
+                | None => None end
+    | _ => None
+    end
+  else if is "np.argmin" then         (* the first position of the minimum *)
+    match args with
+    | [v] => match seq_of v with
+             | Some l => match unQ l with
+                         | Some (x :: t) => Some (Some (VZ (Z.of_nat (argmin_q (x :: t)))))
+                         | Some [] => Some None
+                         | None => None end
+             | None => None end
+    | _ => None
+    end
   else None.
 
 (** binding the target(s) of a comprehension with a tuple target (the same as [bind_pattern] below) *)
@@ -667,6 +760,21 @@ Definition comp_bind (targets : list string) (v : val) (env : list (string * val
          | Some vs => match comp_bind_targets targets vs env with Some env' => inl env' | None => inr true end
          | None => inr false
          end
+  end.
+
+(** a[idx] with an int array as index (fancy indexing): [None] = IndexError, [Some None] = not ints *)
+Fixpoint take_idx (l : list val) (idx : list val) : option (option (list val)) :=
+  match idx with
+  | [] => Some (Some [])
+  | VZ j :: t =>
+      match norm_index (List.length l) j with
+      | Some k => match nth_val l k, take_idx l t with
+                  | Some x, Some (Some r) => Some (Some (x :: r))
+                  | Some _, o => o
+                  | None, _ => None end
+      | None => None
+      end
+  | _ :: _ => Some None
   end.
 
 Section Eval.
@@ -813,6 +921,12 @@ Fixpoint eval (env : list (string * val)) (e : expr) {struct e} : option (option
                       | Some k => match nth_val l k with Some x => ret x | None => Some None end
                       | None => Some None end                                                     (* IndexError *)
           | None => None
+          end
+      | Some (Some (VA l)), Some (Some (VA idx)) =>          (* a[int array]: the elements at those positions *)
+          match take_idx l idx with
+          | Some (Some r) => ret (VA r)
+          | None => Some None                                                                   (* IndexError *)
+          | Some None => None
           end
       | Some None, _ => Some None
       | Some (Some _), Some None => Some None
@@ -1098,6 +1212,34 @@ Fixpoint exec (s : stmt) (env : list (string * val)) {struct s} : outcome :=
       | Some _, Some (Some _), Some None => Raised
       | _, _, _ => Stuck
       end
+  | SCallSt t x f args =>
+      match lookup env x, eval env (ETuple args) with
+      | Some st, Some (Some (VT vs)) =>
+          match (match user f with Some g => g (st :: vs) | None => call f (st :: vs) end) with
+          | Some (Some (VT [r; st'])) => Normal ((t, r) :: (x, st') :: env)
+          | Some None => Raised
+          | _ => Stuck
+          end
+      | Some _, Some None => Raised
+      | _, _ => Stuck
+      end
+  | SYield e =>
+      match lookup env "$yield", eval env e with
+      | Some (VL l), Some (Some v) => Normal (("$yield", VL (l ++ [v])) :: env)
+      | Some (VL _), Some None => Raised
+      | _, _ => Stuck
+      end
+  | STry body handler =>
+      match run_list body env with
+      | Raised => run_list handler env
+      | o => o
+      end
+  | SLog f args =>
+      match lookup env "$log", eval env (ETuple args) with
+      | Some (VL l), Some (Some (VT vs)) => Normal (("$log", VL (l ++ [VT (VS f :: vs)])) :: env)
+      | Some (VL _), Some None => Raised
+      | _, _ => Stuck
+      end
   end.
 
 Fixpoint exec_list (l : list stmt) (env : list (string * val)) : outcome :=
@@ -1162,6 +1304,16 @@ Proof.
   reflexivity.
 Qed.
 
+Lemma exec_STry body handler env :
+  exec (STry body handler) env =
+  match exec_list body env with
+  | Raised => exec_list handler env
+  | o => o
+  end.
+Proof.
+  cbn [exec]. rewrite !run_list_exec_list. reflexivity.
+Qed.
+
 (** calling a function: falling off the end returns None *)
 Definition run (f : func) (args : list val) : outcome :=
   match bind_targets (f_params f) args [] with
@@ -1191,6 +1343,34 @@ Definition run_kw (f : func) (kws : list string) (args : list val) : outcome :=
            end
        end
   else Stuck.
+
+(** calling a generator function and consuming it to the end: the list of the yielded values.
+    An exception raised before the generator is exhausted propagates to the consumer ([Raised]; the
+    values yielded before it are not observed); `return` ends the generator. *)
+Definition run_gen (f : func) (args : list val) : outcome :=
+  match bind_targets (f_params f) args [("$yield", VL [])] with
+  | None => Stuck
+  | Some env =>
+      match exec_list (f_body f) env with
+      | Normal env' => match lookup env' "$yield" with Some v => Returned v | None => Stuck end
+      | Returned _ => Stuck      (* `return` inside a generator: not needed so far, kept outside the fragment *)
+      | o => o
+      end
+  end.
+
+(** the same, with the log of the effect calls: returns (yielded values, log) *)
+Definition run_gen_log (f : func) (args : list val) : outcome :=
+  match bind_targets (f_params f) args [("$yield", VL []); ("$log", VL [])] with
+  | None => Stuck
+  | Some env =>
+      match exec_list (f_body f) env with
+      | Normal env' => match lookup env' "$yield", lookup env' "$log" with
+                       | Some y, Some l => Returned (VT [y; l])
+                       | _, _ => Stuck end
+      | Returned _ => Stuck
+      | o => o
+      end
+  end.
 
 End Eval.
 
